@@ -3,6 +3,9 @@ FUNCTIONS = [
     'circus.watcher:Watcher.spawn_processes',
     'circus.watcher:Watcher._start',
     'circus.watcher:Watcher.spawn_process',
+    # arbiter level: descending priority, one watcher after the other, warmup_delay apart
+    'circus.arbiter:Arbiter.iter_watchers',
+    'circus.arbiter:Arbiter._start_watchers',
 ]
 LEMMAS = []
 FRAMES = []
@@ -10,12 +13,16 @@ ASSUMPTIONS = ['A-PY', 'A-REAL', 'T-TORNADO gen.sleep(d) resumes after >= d (gho
                'time.time() reads the monotone ghost clock']
 TRUSTED = []
 NOT_DECIDED = ['real-time spacing (scheduler latency only adds delay)',
-               'inter-watcher order and spacing (Arbiter._start_watchers / iter_watchers: not yet under contract)']
+               'the watcher_iter_func variants of _start_watchers (restart / start commands on a subset): the contract requires '
+               'watcher_iter_func is None',
+               'Arbiter.start / start_watchers wrappers and the reverse (lowest first) order used when stopping']
 DESIGN_REF = 'DESIGN.md section 8, C19'
 TECHNIQUE = 'contract-based deductive verification (ghost spawn log with clock stamps, loop invariant on spacing)'
 LEVEL_TEXT = ('Within one watcher: consecutive spawns of spawn_processes are at least warmup_delay apart on the '
-              'ghost clock, all belong to that watcher, and _start spawns exactly numprocesses workers.')
-LEVEL_NOTE = 'Trusted: tornado sleep, clock. Arbiter-level ordering not yet covered.'
+              'ghost clock, all belong to that watcher, and _start spawns exactly numprocesses workers. Across watchers '
+              '(Arbiter._start_watchers over iter_watchers): any two spawns of different watchers are ordered by descending '
+              'priority and at least the arbiter warmup_delay apart; iter_watchers is a sorted permutation.')
+LEVEL_NOTE = 'Trusted: tornado sleep, clock.'
 
 # the accounting clause of spawn_process (known finding F-21) is claimed by C04 / C14
 EXCLUDE_CLAUSES = ['post[accounted]:Watcher.spawn_process']
